@@ -442,6 +442,10 @@ def _mk_scalar(v, dt):
         return v
     if isinstance(v, generic):
         return v
+    if _is_symbolic(v):
+        # CrossHair symbolic atoms stay bare: int()/float()/index() of a wrapper would have
+        # to return a concrete value (Python checks the result type of __int__)
+        return v
     if dt.kind == 'U':
         return v          # NumPy str_ is a str subclass; a bare str behaves the same
     cls = _SCALAR_TYPES[(dt.kind, dt.itemsize)]
@@ -574,6 +578,12 @@ def _inf_aware(op, swapped):
             if tb is RealT or _pykind(b) in 'ib' or tb is float:
                 return {'lt': a < 0, 'le': a < 0, 'gt': a > 0, 'ge': a > 0, 'eq': False,
                         'ne': True}[op]
+        # a symbolic int against a float: compare over the reals (CrossHair would coerce the
+        # int to an IEEE float term)
+        if ta is float and _is_symbolic(b) and _pykind(b) in 'ib':
+            b = _to_real(b)
+        elif tb is float and _is_symbolic(a) and _pykind(a) in 'ib':
+            a = _to_real(a)
         return swapped(a, b)
     return f
 
